@@ -79,6 +79,14 @@ def build_constraint(c, objs):
 def build_block(b, objs, cons_cache=None):
     """cons_cache: dict canon(constraint spec) -> constraint object; when given, equal constraint specs share ONE object"""
     op = b['op']
+    if op == 'shared':
+        # one block OBJECT shared by every construction of the world that names it (C18)
+        key = '#block:' + b['name']
+        if cons_cache is None:
+            return build_block(b['block'], objs, None)
+        if key not in cons_cache:
+            cons_cache[key] = build_block(b['block'], objs, cons_cache)
+        return cons_cache[key]
     if cons_cache is None:
         cs = [build_constraint(c, objs) for c in b.get('constraints', [])]
     else:
@@ -133,6 +141,8 @@ def gen(name):
 def block_design(b):
     """user-visible factor names of a block spec, in the order the library reports them"""
     op = b['op']
+    if op == 'shared':
+        return block_design(b['block'])
     if op in ('cross', 'multi'):
         return list(b['design'])
     out = []
